@@ -350,6 +350,11 @@ func (c *RetryClient) SetClient(ctx context.Context, cli *BaseClient) {
 
 			task(ctx, cli)
 
+			// retryQueue is owned by this goroutine; publish its length for Stats.
+			c.muStats.Lock()
+			c.stats.QueuedRetries = len(c.retryQueue)
+			c.muStats.Unlock()
+
 			if c.newRetryByError {
 				_ = cli.Close()
 				connected = false
@@ -482,7 +487,6 @@ func (c *RetryClient) Stats() RetryStats {
 
 	c.mu.RLock()
 	stats.QueuedTasks = len(c.taskQueue)
-	stats.QueuedRetries = len(c.retryQueue)
 	c.mu.RUnlock()
 
 	return stats
